@@ -8,15 +8,17 @@ def _setup():
     return sqlparse
 
 
-def _case(sqlparse, text):
+def _case(sqlparse, text, nav=True):
     stmts = sqlparse.parse(text)
     flat = oracles.flat_statements(text)
-    return stmts, oracles.check_c03(text, stmts, flat)
+    return stmts, oracles.check_c03(text, stmts, flat, nav=nav)
 
 
 def _evaluate(text, frags, space, acc, sqlparse):
     try:
-        stmts, bad = _case(sqlparse, text)
+        # the deep tiny-alphabet space checks the tree invariants only (the navigation helpers are exercised by
+        # all other spaces; 7-fragment strings x every offset would dominate the budget)
+        stmts, bad = _case(sqlparse, text, nav=not space.startswith('ASG'))
     except sqlparse.exceptions.SQLParseError:
         acc.case(text, False, outcome='SQLParseError')
         return
